@@ -4,8 +4,21 @@
 export GOFLAGS=-mod=mod GOPROXY=off GOSUMDB=off GOTOOLCHAIN=local
 unset GOWORK
 cd /verif/vcheck || exit 2
-if [ ! -x /verif/bin/vcheck ] || [ -n "$(find . \( -name '*.go' -o -name 'reference.json' \) -newer /verif/bin/vcheck 2>/dev/null)" ]; then
-  go build -o /verif/bin/vcheck . || exit 2
+mkdir -p /verif/bin
+build() {
+  if [ ! -x /verif/bin/vcheck ] || [ -n "$(find . \( -name '*.go' -o -name 'reference.json' \) -newer /verif/bin/vcheck 2>/dev/null)" ]; then
+    # build beside the target and rename: checks running in parallel never execute a half-written binary
+    go build -o /verif/bin/vcheck.new.$$ . && mv -f /verif/bin/vcheck.new.$$ /verif/bin/vcheck || { rm -f /verif/bin/vcheck.new.$$; return 2; }
+  fi
+}
+if command -v flock >/dev/null 2>&1; then
+  exec 9>/verif/bin/.build.lock
+  flock 9
+  build || exit 2
+  flock -u 9
+  exec 9>&-
+else
+  build || exit 2
 fi
 cd /verif
 exec /verif/bin/vcheck -p "$1" -tier "${2:-quick}"
